@@ -175,12 +175,7 @@ theorem graphql_enum_names_and_values (E : Env) (cfg : Cfg) (names : List (List 
   rw [e, hd]
   simp [member_read_back]
 
-/-- the GraphQL member loop terminates and never raises -/
-theorem graphql_enum_total (E : Env) (cfg : Cfg) (names : List (List Char)) (hp : PrefixOK cfg) (hE : CaseOK E) :
-    parseGraphqlEnum E cfg names ≠ .outOfFuel :=
-  fold_terminates hp hE _ _ _
-
-/-- non-vacuity, the shape the seeded change has: GraphQL values that only SANITISE to `mro` (`MRO`, `Mro` under
+/-- non-vacuity: GraphQL values that only SANITISE to `mro` (`MRO`, `Mro` under
 snake case; `_mro` with the special prefix removed) next to the literal one -/
 example :
     parseGraphqlEnum pyEnv { snakeCase := true } [['M', 'R', 'O'], ['M', 'r', 'o'], ['m', 'r', 'o']] =
@@ -189,6 +184,11 @@ example :
     parseGraphqlEnum pyEnv { removePrefix := true } [['_', 'm', 'r', 'o']] =
       .ok [(['m', 'r', 'o', '_', '1'], .lit ['\'', '_', 'm', 'r', 'o', '\''])] := by
   decide +kernel
+
+/-- the GraphQL member loop terminates and never raises -/
+theorem graphql_enum_total (E : Env) (cfg : Cfg) (names : List (List Char)) (hp : PrefixOK cfg) (hE : CaseOK E) :
+    parseGraphqlEnum E cfg names ≠ .outOfFuel :=
+  fold_terminates hp hE _ _ _
 
 /-- non-vacuity: reserved and colliding names in one enum (`mro`, a keyword, two entries that sanitise alike) -/
 example : parseEnum pyEnv {} ⟨some strT, [.str ['m', 'r', 'o'], .str ['i', 'f'], .str ['a', ' '], .str ['a', '-']], []⟩ =
